@@ -487,18 +487,21 @@ def _r5(ctx, pkg):
         f = comp.methods.get(prop)
         good = False
         if f is not None:
-            for rf in Flow(f, "naunet/component.py").facts:
+            def _res(name, _pkg=pkg):
+                _, g_ = _pkg.resolve("Component", name)
+                return g_ if name.startswith("_") and not name.startswith("__") else None
+            for rf in Flow(f, "naunet/component.py", resolver=_res).facts:
                 if rf.kind == "return" and rf.value:
                     v = simp(rf.value)
-                    # {s.symbol: s.value for s in [s for _, s in self._symbols.items() if s.type == VariableType.<kind>]}  (any nesting of the filter)
-                    if v[0] == "call" and v[1] in (("global", "OrderedDict"), ("global", "dict")) and len(v[2]) == 1:
-                        v = ("comp", "dict") + tuple(v[2][0][2:]) if v[2][0][0] == "comp" else v
-                    if v[0] == "comp" and v[1] == "dict" and len(v[3]) == 1:
-                        bv = v[3][0][0]
-                        good = v[2] == ("tuple", (("attr", bv, "symbol"), ("attr", bv, "value"))) and \
-                            any(isinstance(x, tuple) and len(x) == 3 and x[0] == "cmp" and x[1] == ("Eq",) and x[2][0][0] == "attr" and x[2][0][2] == "type"
-                                and x[2][1] == ("attr", ("global", "VariableType"), kind) for x in walk(v)) and \
-                            any(x == ("meth", ("attr", SELF, "_symbols"), "items", (), ()) for x in walk(v))
+                    # whatever the nesting / spelling (comprehension over .items() or .values(), a filtering helper, dict(),
+                    # OrderedDict(), a folded loop): pairs (x.symbol, x.value), one filter x.type == VariableType.<kind>,
+                    # drawn from self._symbols
+                    pairs = [x for x in walk(v) if isinstance(x, tuple) and len(x) == 2 and x[0] == "tuple" and len(x[1]) == 2
+                             and x[1][0][0] == "attr" and x[1][0][2] == "symbol" and x[1][1][0] == "attr" and x[1][1][2] == "value" and x[1][0][1] == x[1][1][1]]
+                    tests = [x for x in walk(v) if isinstance(x, tuple) and len(x) == 3 and x[0] == "cmp"]
+                    kind_tests = [x for x in tests if x[1] == ("Eq",) and x[2][0][0] == "attr" and x[2][0][2] == "type" and x[2][1] == ("attr", ("global", "VariableType"), kind)]
+                    src = any(isinstance(x, tuple) and len(x) == 5 and x[0] == "meth" and x[1] == ("attr", SELF, "_symbols") and x[2] in ("items", "values") for x in walk(v))
+                    good = len(pairs) >= 1 and len(kind_tests) >= 1 and len(tests) == len(kind_tests) and src
         ctx.check(good, "R5", f"Component.{prop}", ("naunet/component.py", f.lineno if f else 0),
                   f"Component.{prop} maps symbol -> value for the symbols of kind `{kind}`")
 
